@@ -146,7 +146,106 @@ def check_c11(ctx):
     run_cases(ctx, "basic", cases, "C11", nontrivial=lambda c: len(c["rules"]) > 0)
 
 
-PROPS = {"C10": check_c10, "C11": check_c11}
+# ------------------------------------------------------------------------------------ C12
+def check_c12(ctx):
+    q = ctx.tier == "quick"
+    ctx.cov["rule"] = ("MC: every product configuration = basic table (<= LRULES rules over hosts {x.t, *.t, *} x paths "
+                       "{/a, /a/*, *}, target cb or ADVANCED_MODE) or no basic table x advanced list (<= ADV rules, "
+                       "conditions {always, never, host is x.t, path is /a}, clusters {c1,c2}) or no advanced list x 9 "
+                       "requests; invariant: the LookupCluster mechanism model answers within what Layer P admits "
+                       "(real basic hit wins; miss or ADVANCED_MODE -> first true advanced rule in order; else error). "
+                       "Gen: one case per product configuration with all requests and the truth value of every "
+                       "condition; written as route_rule.data, loaded with HostRuleConfLoad/VipRuleConfLoad/"
+                       "RouteConfLoad + HostTable.Update, probed with HostTable.LookupCluster and HostTable.Lookup; the "
+                       "truth values are first confirmed on the real condition objects. distinct = distinct product "
+                       "configurations.")
+    mcs = [{"ADV": 2, "LRULES": 1}] if q else [{"ADV": 2, "LRULES": 2}, {"ADV": 3, "LRULES": 1}]
+    ctx.cov["constants"]["MC_Lookup"] = mcs
+    for d in mcs:
+        ctx.tlc_must_pass(SPEC, "Lookup", "MC_Lookup.cfg", defines=d, timeout=2400)
+    cases = []
+    g1 = {"ADV": 2, "LRULES": 1}
+    ctx.cov["constants"]["Gen_Lookup"] = [g1]
+    cases += gen(ctx, "GenLookup", "Gen_Lookup.cfg", g1)
+    for d, num in (({"ADV": 3, "LRULES": 2}, 300),) if q else (({"ADV": 2, "LRULES": 2}, 4000), ({"ADV": 3, "LRULES": 2}, 4000)):
+        ctx.cov["constants"]["Gen_Lookup"].append(dict(d, mode="simulate num=%d" % num))
+        cases += gen(ctx, "GenLookup", "Gen_Lookup.cfg", d, mode="sim", num=num, depth=2, timeout=1500)
+    cases = dedup(cases)
+    ctx.assumptions.append("C12: 'not forwarded' is observed as the error return of LookupCluster/Lookup (the reverse "
+                           "proxy answers such a request itself); no end-to-end run with a backend is made here.")
+    run_cases(ctx, "lookup", cases, "C12", nontrivial=lambda c: c["basic"]["has"] or c["adv"]["has"])
+
+
+# ------------------------------------------------------------------------------------ C13
+def check_c13(ctx):
+    q = ctx.tier == "quick"
+    ctx.cov["rule"] = ("MC: every configuration shape with <= DEV fields off the documented baseline, for host_rule + "
+                       "vip_rule + route_rule + cluster_conf (21 fields, 3-13 states each: ok / absent / null / wrong "
+                       "type / empty / dangling reference / documented alternatives such as ADVANCED_MODE), gslb.data, "
+                       "cluster_table.data and whole-file damage; invariant: wherever Layer P has a verdict (all fields "
+                       "documented -> accept; some field malformed or dangling -> reject) the loaders' model agrees; "
+                       "class tables well-formed; documents' examples accepted (ASSUME). Gen: one case per shape; "
+                       "written as real files, loaded with every single loader and with LoadServerDataConf / "
+                       "GslbConfLoad / ClusterTableLoad under recover; accept/reject compared with Layer P, gray shapes "
+                       "replayed for crashes only; plus seeded structural mutations of the documented files (crash "
+                       "check only). distinct = distinct shapes with a verdict.")
+    mcd = {"DEV": 2}
+    ctx.cov["constants"]["MC_Conf"] = dict(mcd, Kinds="{sdc,gslb,ctable,file}")
+    ctx.tlc_must_pass(SPEC, "Conf", "MC_Conf.cfg", defines=mcd, timeout=2400)
+    cases = []
+    allk = '{"sdc", "gslb", "ctable", "file"}'
+    if q:
+        gens = [({"KINDS": allk, "DEV": 1}, None), ({"KINDS": '{"gslb", "ctable", "file"}', "DEV": 2}, None),
+                ({"KINDS": '{"sdc"}', "DEV": 2}, 1200), ({"KINDS": '{"sdc"}', "DEV": 3}, 300)]
+    else:
+        gens = [({"KINDS": allk, "DEV": 2}, None), ({"KINDS": allk, "DEV": 3}, 12000)]
+    ctx.cov["constants"]["Gen_Conf"] = []
+    for d, num in gens:
+        ctx.cov["constants"]["Gen_Conf"].append(dict(d, mode="simulate num=%d" % num if num else "mc"))
+        if num:
+            cases += gen(ctx, "GenConf", "Gen_Conf.cfg", d, mode="sim", num=num, depth=4, timeout=1500)
+        else:
+            cases += gen(ctx, "GenConf", "Gen_Conf.cfg", d, timeout=2400)
+    cases = dedup(cases)
+    run_cases(ctx, "conf", cases, "C13", nontrivial=lambda c: c["e"] != "gray")
+    # crash-freedom on arbitrary JSON: seeded structural mutations of the documented files
+    n = 1500 if q else 20000
+    res = ctx.harness("route", ["conf-fuzz", str(n)], cases=[], timeout=1500)
+    summ = [r for r in res if r.get("fuzz_summary")]
+    if not summ or [r for r in res if "_harness_exit" in r]:
+        raise vlib.MachineryError("route conf-fuzz died: %s" % res[-1:])
+    ctx.cov["fuzzed_files"] = summ[0]["files"]
+    ctx.traces(summ[0]["files"])
+    for r in res:
+        if r.get("fuzz_panic"):
+            ctx.report("panic/fuzz/" + r["loader"], r["detail"][:1500],
+                       case={"fuzz": True, "loader": r["loader"], "text": r["text"]}, harness="route", cmd="conf-fuzz-one")
+
+
+# ------------------------------------------------------------------------------------ C14
+def check_c14(ctx):
+    q = ctx.tier == "quick"
+    ctx.cov["rule"] = ("MC: every small host_rule.data (2 host names x 2 spellings by case, 2 host tags, 2 products) and "
+                       "vip_rule.data (2 VIPs, one with 2 spellings, 2 products) x every order in which Go may range over "
+                       "the maps involved; invariant: an accepted load answers exactly the function the files denote and "
+                       "file sets that denote no function (a host name - up to case - under two tags, a tag with hosts "
+                       "under two products, a VIP under two products) are rejected, whatever the order. Gen: one case "
+                       "per file set (+ gslb weight tables); each is loaded R times in one process and once or twice in "
+                       "fresh processes with LoadServerDataConf / BalTable.Init and every lookup (product, host tag, "
+                       "sub-cluster and backend for fixed client addresses) is compared across the loads and with the "
+                       "function. distinct = distinct file sets.")
+    mcd = {"FIXED": "TRUE", "PERTAG": 2 if q else 3}
+    ctx.cov["constants"]["MC_Determ"] = dict(mcd, Names="{h1,h2}", Tags="{t1,t2}", Prods="{p1,p2}")
+    ctx.tlc_must_pass(SPEC, "Determ", "MC_Determ.cfg", defines=mcd, timeout=2400)
+    gd = {"PERTAG": 2 if q else 3}
+    ctx.cov["constants"]["Gen_Determ"] = dict(gd, R=20 if q else 60, processes=2 if q else 3)
+    cases = dedup(gen(ctx, "GenDeterm", "Gen_Determ.cfg", gd, timeout=1500))
+    out = run_cases(ctx, "determ", cases, "C14")
+    if not any(isinstance(r.get("obs"), dict) and r["obs"].get("accepted") for r in out):
+        raise vlib.MachineryError("C14: no file set was accepted by the loaders - nothing was compared")
+
+
+PROPS = {"C10": check_c10, "C11": check_c11, "C12": check_c12, "C13": check_c13, "C14": check_c14}
 
 SUBCMD = {"C10": "host", "C11": "basic", "C12": "lookup", "C13": "conf", "C14": "determ"}
 
@@ -154,7 +253,15 @@ SUBCMD = {"C10": "host", "C11": "basic", "C12": "lookup", "C13": "conf", "C14": 
 def replay(ctx, pid, rep):
     case = dict(rep["case"])
     sub = rep.get("cmd") or SUBCMD[pid]
-    run_cases(ctx, sub, [case], "replay")
+    if case.get("fuzz"):
+        res = ctx.harness("route", ["conf-fuzz-one"], cases=[case], timeout=300)
+        for r in res:
+            if r.get("fuzz_panic"):
+                ctx.report("panic/fuzz/" + r["loader"], r["detail"][:1500], case=case, harness="route", cmd="conf-fuzz-one")
+        if not [r for r in res if r.get("fuzz_summary")]:
+            raise vlib.MachineryError("route conf-fuzz-one died: %s" % res[-1:])
+    else:
+        run_cases(ctx, sub, [case], "replay")
     rc = ctx.finish()
     print("replay: %s" % ("violation reproduced" if rc == 1 else "no violation on the current tree"))
     return rc
